@@ -428,9 +428,19 @@ Proof.
   rewrite IH. unfold enc1. rewrite E. cbn [pair_of fst snd]. rewrite undelta_delta, Hc. reflexivity.
 Qed.
 
+Lemma apply_fast_eq : forall cfg o s t v, apply_fast cfg o s t v = apply cfg o s t v.
+Proof. intros cfg o s t v. destruct o; reflexivity. Qed.
+
+Lemma enc1_fast_eq : forall cfg o s t p, enc1_fast cfg o s t p = enc1 cfg o s t p.
+Proof.
+  intros cfg o s t p. unfold enc1_fast, enc1, run1. cbv zeta.
+  destruct (decode s p); [rewrite apply_fast_eq|]; reflexivity.
+Qed.
+
 Theorem oracle_holds_cfg : forall cfg c, cfg_ok cfg = true -> valid c -> oracle c (run_with cfg c) = true.
 Proof.
   intros cfg c Hok [Ht Hv]. unfold oracle, run_with.
+  rewrite (map_ext _ _ (enc1_fast_eq cfg (c_op c) (c_src c) (c_tgt c))).
   destruct (src_range (c_src c)) as [[lo hi]|] eqn:Hr; [|contradiction].
   rewrite (check_rle_expand _ _ _ _ 0%nat 0 0 _ (rle_pos _)). cbn [repeat app].
   rewrite rle_expand. apply (check_pairs_enc cfg _ _ _ lo hi); assumption.
